@@ -1062,6 +1062,16 @@ static void run_op(char **t, int nt)
 		rc = cfg_setcomment(loc_cfg, name, c);
 		free(name); free(c); logret(op, rc); return;
 	}
+	if (!strcmp(op, "rmtsec_self")) {	/* remove a titled section, naming it by the title string the section itself owns */
+		char *name; cfg_t *sec; int rc;
+		NEED(4); LOC(1);
+		name = sdec(t[2], NULL);
+		sec = cfg_getnsec(loc_cfg, name, (unsigned)atol(t[3]));
+		rc = sec ? cfg_rmtsec(loc_cfg, name, cfg_title(sec)) : -1;
+		free(name);
+		logret(op, rc);
+		return;
+	}
 	if (!strcmp(op, "opt_free_value")) {	/* cfg_free_value(opt): the public call that empties an option */
 		int rc;
 		NEED(2); LOCOPT(1);
